@@ -10,6 +10,9 @@ use serde::{Deserialize, Serialize};
 use std::fmt::{Display, Formatter};
 use std::time::Duration;
 
+/// Longest time limit handed to the solver (about a century).
+const MAX_TIME_LIMIT: Duration = Duration::from_secs(100 * 365 * 24 * 60 * 60);
+
 /// Represents a variable value that can be either boolean or integer.
 #[derive(Debug, Clone, Serialize, Deserialize, Copy)]
 #[serde(tag = "type", content = "value")]
@@ -198,7 +201,9 @@ pub fn solve_milp_lp_problem_with(
         solve_options.mip_gap = gap;
     }
     if let Some(limit) = options.time_limit {
-        solve_options.time_limit = Some(limit);
+        // the limit is added to the current instant to form a deadline: a limit
+        // beyond any real run (Duration::MAX) is capped so the sum cannot overflow
+        solve_options.time_limit = Some(limit.min(MAX_TIME_LIMIT));
     }
 
     match problem.solve_with(solve_options) {
@@ -207,7 +212,24 @@ pub fn solve_milp_lp_problem_with(
         Ok(s) if s.status() == microlp::Status::Interrupted => Err(SolverError::LimitReached),
         Ok(s) => {
             let status = match s.status() {
-                microlp::Status::Optimal => SolutionStatus::Optimal,
+                microlp::Status::Optimal => {
+                    // microlp closes the requested gap on its own objective, which
+                    // lacks the model's constant offset; relative to the objective
+                    // the user sees the distance to the proven bound can be larger
+                    let offset = lp.objective_offset();
+                    let within_gap = match (options.mip_gap, s.stats().best_bound) {
+                        (Some(gap), Some(bound)) if gap > 0.0 && offset != 0.0 => {
+                            let value = s.objective() + offset;
+                            (value - (bound + offset)).abs() <= gap * value.abs() + 1e-9
+                        }
+                        _ => true,
+                    };
+                    if within_gap {
+                        SolutionStatus::Optimal
+                    } else {
+                        SolutionStatus::Feasible
+                    }
+                }
                 microlp::Status::Feasible | microlp::Status::Interrupted => SolutionStatus::Feasible,
             };
             let value_of = |index: usize| {
